@@ -321,6 +321,13 @@ func genLiteral(t *rapid.T, first bool) c04Part {
 			src.WriteRune(r)
 			out.WriteRune(r)
 		case 6:
+			if rapid.Bool().Draw(t, "placeholder") {
+				// text that looks like a substitution placeholder of a string table
+				k := rapid.IntRange(0, 2).Draw(t, "k")
+				src.WriteString(fmt.Sprintf(`\{%d\}`, k))
+				out.WriteString(fmt.Sprintf("{%d}", k))
+				continue
+			}
 			src.WriteString("]")
 			out.WriteString("]")
 		default:
@@ -379,7 +386,7 @@ func genC04Line(t *rapid.T, c *c04Case, option bool) c04Line {
 				c.Vars[name] = boolVal(rapid.Bool().Draw(t, "b"))
 				e = varRef(name)
 			case 3:
-				c.Vars[name] = strVal(rapid.SampledFrom([]string{"", "abc", "two words", "é日", "it's", "a#b", "x{y}", "</>", "100%", " lead", "trail ", "#", "//"}).Draw(t, "s"))
+				c.Vars[name] = strVal(rapid.SampledFrom([]string{"", "abc", "two words", "é日", "it's", "a#b", "x{y}", "</>", "100%", " lead", "trail ", "#", "//", "{0}", "{1} {0}", "%s %d {2}", "$v0"}).Draw(t, "s"))
 				e = varRef(name)
 			case 4:
 				e = bin("+", num(fmt.Sprint(rapid.IntRange(0, 50).Draw(t, "a"))), num(rapid.SampledFrom([]string{"1", "0.5", "2.25", "100"}).Draw(t, "b")))
